@@ -10,6 +10,7 @@ from .. import canon, stepcorr as S, stepprop as P
 from ..common import quiet
 
 LAYER_A = ['delete_fields', 'select_fields', 'rename_fields', 'add_field']
+LAYER_B = ['find_replace', 'add_computed_field']
 
 
 def expected_fields(proc, a, fields):
@@ -260,6 +261,9 @@ def run(ctx):
                 'non-trivial = ran successfully on a non-empty package; distinct by content')
     rep.assumptions = ['Python re as oracle table', 'format mini-language limited to {name} placeholders']
     P.run_cases(ctx, LAYER_A, oracle, ctx.n(1000, 12000), gen_hook=gen_hook)
+    # find_replace / add_computed_field (exact arithmetic and text operations) against the model
+    P.run_cases(ctx, LAYER_B, lambda proc, a, desc, rows, real: P.frame_oracle(proc, a, desc, rows, real),
+                ctx.n(600, 8000), salt='layer-b')
     rng = ctx.rng('computed')
     with quiet():
         for _ in range(ctx.n(250, 3000)):
